@@ -32,6 +32,9 @@ def run(ctx):
     # keep-alive admission relies on the worker's force_close(): nothing else may lower or raise Response.must_close
     from .c02 import must_close_writers
     must_close_writers(ctx, "C13.R5")
+    ctx.rule("C13.R8", "K4", "(= C05.R5) the accept callback survives a client that aborts before accept(): ECONNABORTED / EAGAIN / EWOULDBLOCK are swallowed (an exception there ends run(), the worker stops serving)")
+    from .c05 import accept_errors
+    accept_errors(ctx, "C13.R8")
 
 
 def blocking_mode(ctx, rid):
